@@ -253,6 +253,80 @@ func c10Gen(tier string, rng *rand.Rand, emit func(string)) map[string]interface
 		}
 	}
 
+	// (1d) OnNext set / cleared AFTER Subscribe through the returned pointer (a:<id> arms, d:<id> disarms): registration is
+	// independent of OnNext, Publish looks at OnNext at delivery time.  Zero-value subscription armed before / between
+	// publishes at every position among ordinary ones, live one disarmed and re-armed, both constructors, Map, handler.
+	for _, lay := range [][]string{{"z"}, {"z", "s"}, {"s", "z"}, {"s", "z", "s"}, {"s:u0", "z", "s"}, {"z", "z"}, {"s", "s", "z"}} {
+		zi := 0
+		for i, t := range lay {
+			if t == "z" {
+				zi = i + 1
+			}
+		}
+		z := strconv.Itoa(zi)
+		for _, mid := range [][]string{
+			{"a:" + z, "p:1"}, {"p:1", "a:" + z, "p:2"}, {"a:" + z, "p:1", "d:" + z, "p:2", "a:" + z, "p:3"},
+			{"p:1", "d:1", "p:2", "a:1", "p:3", "a:" + z, "p:4"}, {"a:" + z, "u:" + z, "p:1"}, {"a:" + z, "d:" + z, "p:1", "c"},
+		} {
+			for _, root := range []string{"", "i"} {
+				toks := append(append([]string{}, lay...), mid...)
+				toks = append(toks, "c")
+				if root == "i" {
+					for k := range toks {
+						if i := strings.Index(toks[k], ":"); i >= 0 {
+							toks[k] = toks[k][:i] + "@1" + toks[k][i:]
+						} else {
+							toks[k] += "@1"
+						}
+					}
+					toks = append([]string{"r:i"}, toks...)
+				}
+				out("arm", "seq: "+strings.Join(toks, " ; "))
+			}
+		}
+	}
+	for _, lay := range [][]string{
+		{"z", "m:a", "s@1", "a:1", "p:1", "d:1", "p:2"},
+		{"m:a", "z@1", "s@1", "p:1", "a@1:1", "p:2", "d@1:2", "p:3", "c@1"},
+		{"h", "z", "s", "a:1", "p:1", "d:2", "p:2", "a:2", "d:1", "p:3"},
+		{"z", "h", "p:1", "a:1", "p:2"},
+		{"s", "z", "s", "go1:1", "adv1", "adv1", "a:2", "adv1", "adv1", "fin1", "p:2"},
+		{"s", "s", "s", "go1:1", "adv1", "d:2", "adv1", "adv1", "adv1", "fin1", "p:2"},
+	} {
+		kind := "seq: "
+		if strings.Contains(strings.Join(lay, " "), "go1") {
+			kind = "sched: "
+		}
+		out("arm", kind+strings.Join(lay, " ; "))
+	}
+	for i := 0; i < 400; i++ {
+		var toks []string
+		subs, v := 0, 0
+		for j, nops := 0, 6+rng.Intn(16); j < nops; j++ {
+			r := rng.Intn(100)
+			switch {
+			case r < 20 && subs < 7 || subs == 0:
+				toks = append(toks, "z")
+				subs++
+			case r < 35 && subs < 7:
+				toks = append(toks, c10SubTok(c10RandScript(rng, 2, false)))
+				subs++
+			case r < 55:
+				toks = append(toks, "a:"+strconv.Itoa(1+rng.Intn(subs)))
+			case r < 65:
+				toks = append(toks, "d:"+strconv.Itoa(1+rng.Intn(subs)))
+			case r < 70:
+				toks = append(toks, "u:"+strconv.Itoa(1+rng.Intn(subs)))
+			default:
+				v++
+				toks = append(toks, "p:"+strconv.Itoa(v))
+			}
+		}
+		v++
+		toks = append(toks, "p:"+strconv.Itoa(v), "c")
+		out("arm", "seq: "+strings.Join(toks, " ; "))
+	}
+
 	// (2) random longer histories on one publisher
 	nRandom := 1500
 	if thorough {
